@@ -52,7 +52,12 @@ class Solicited(Sub):
         ctrl = ctrl_items(cut_weights=((0, 1),))
         wrong_side = st.sampled_from([dict(k="in", ep=2, ack=1), dict(k="out", ep=1, n=2, flip=0), dict(k="in", ep=7, ack=1),
                                       dict(k="out", ep=9, n=0, flip=0), dict(k="ping", ep=1)])
-        top = st.one_of(ctrl, ctrl_items(cut_weights=((0, 1),)), G.foreign_items(), G.foreign_items(), G.foreign_items(),
+        # transactions addressed to ANOTHER device on the same bus (address = ours XOR k): tokens, data packets and
+        # SETUPs the device must stay completely silent on, whatever it did last
+        other_dev = st.builds(lambda kind, ep, n, k: dict(k="other", kind=kind, ep=ep, n=n, xor=k),
+                              st.sampled_from(["out", "out", "setup", "in", "ping"]), st.sampled_from([0, 1, 2, 3, 4]),
+                              st.integers(0, 8), st.one_of(st.integers(1, 127), st.sampled_from([1, 2, 64])))
+        top = st.one_of(ctrl, other_dev, other_dev, ctrl_items(cut_weights=((0, 1),)), G.foreign_items(), G.foreign_items(), G.foreign_items(),
                         st.sampled_from([dict(k="xin", ep=e, n=n, ack=1) for e in (1, 4) for n in (1, 8, 9)]), wrong_side)
         fields = G.env_fields()
         fields["txr"] = tx_ready_patterns
@@ -61,6 +66,15 @@ class Solicited(Sub):
     def run(self, case):
         b = G.Builder(self.rig.descriptors)
         for it in case["items"]:
+            if it["k"] == "other":
+                addr = {"xor": it["xor"]}
+                if it["kind"] == "out":
+                    b.add(dict(op="out", ep=it["ep"], data=b._bytes(it["n"]), pid=it["n"] & 1, addr=addr, x=None))
+                elif it["kind"] == "setup":
+                    b.add(dict(op="setup", req=[0x80, 6, 0x0100, 0, 18], addr=addr, x=None))
+                else:
+                    b.add(dict(op=it["kind"], ep=it["ep"], ack=0, addr=addr, x=None))
+                continue
             b.item(it)
         run = H.execute("full", b.prog, **G.env_of(case))
         diverged = False
@@ -95,6 +109,8 @@ class Solicited(Sub):
                 labels.add("hs-" + {2: "ACK", 0xA: "NAK", 0xE: "STALL"}.get(r[1], "other"))
             elif t["kind"] != "sof" and t["ep"] not in (0, 3) and ("no " in t.get("ctx", "")):
                 labels.add("absent-endpoint-side-silent")
+        if any(it["k"] == "other" for it in case["items"]):
+            labels.add("traffic-to-another-device-address")
         stall = 0 in case["txr"]
         if stall:
             labels.add("tx_ready-wait-states")
